@@ -2,7 +2,7 @@
 // the set of matching objects).  Three kinds of cases:
 //   - snap: a real monitor on a fake cluster follows a history of create/modify/delete over
 //     several namespaces and names; at quiescence (and after a restart) its Snapshot() is
-//     compared with the matching objects of the cluster;
+//     compared entry by entry (identity, filterResult, object) with the matching objects of the cluster;
 //   - upd: the real HookController.UpdateSnapshots over a reader that answers differently
 //     on every call (changes arriving during an execution): one read per binding, keys =
 //     includeSnapshotsFrom, Synchronization objects = that binding's read;
@@ -39,10 +39,20 @@ import (
 
 var _ = v1.SchemeGroupVersion
 
+// Obj: Proj is the content c of the object; c%10 goes into data.v (what the jqFilter .data
+// selects), c/10 into the label r (outside the filter).
 type Obj struct {
 	Ns   int `json:"ns"`
 	Name int `json:"name"`
 	Proj int `json:"proj"`
+}
+
+// View is what one snapshot entry shows: identity, filter result (-1: none), whole object (-1: not kept).
+type View struct {
+	Ns   int `json:"ns"`
+	Name int `json:"name"`
+	Fr   int `json:"filter_result"`
+	Full int `json:"object"`
 }
 type ObjOp struct {
 	Kind string `json:"kind"` // create modify delete
@@ -55,6 +65,8 @@ type SnapIn struct {
 	Ops        []ObjOp `json:"ops"`
 	Ghost      *Obj    `json:"ghost,omitempty"` // deleted between the initial list and the informer start
 	Restart    bool    `json:"restart"`
+	Filter     bool    `json:"filter"`    // the binding has jqFilter ".data"
+	DropFull   bool    `json:"drop_full"` // keepFullObjectsInMemory: false
 }
 type UpdBinding struct {
 	Name     int   `json:"name"`
@@ -84,8 +96,8 @@ type UpdCtxObs struct {
 	Objects int   `json:"objects"` // read number behind `objects` (0 = none)
 }
 type Obs struct {
-	Snap    []Obj       `json:"snap,omitempty"`
-	Restart []Obj       `json:"restart_snap,omitempty"`
+	Snap    []View      `json:"snap,omitempty"`
+	Restart []View      `json:"restart_snap,omitempty"`
 	Upd     []UpdCtxObs `json:"upd,omitempty"`
 	Reads   []int       `json:"reads,omitempty"` // bindings in the order they were read
 	GrpKeys []string    `json:"grp_keys,omitempty"`
@@ -101,19 +113,42 @@ func objName(n int) string { return "n" + strconv.Itoa(n) }
 func cm(o Obj) *unstructured.Unstructured {
 	return &unstructured.Unstructured{Object: map[string]interface{}{
 		"apiVersion": "v1", "kind": "ConfigMap",
-		"metadata": map[string]interface{}{"name": objName(o.Name), "namespace": nsName(o.Ns)},
-		"data":     map[string]interface{}{"v": strconv.Itoa(o.Proj)},
+		"metadata": map[string]interface{}{"name": objName(o.Name), "namespace": nsName(o.Ns), "labels": map[string]interface{}{"r": strconv.Itoa(o.Proj / 10)}},
+		"data":     map[string]interface{}{"v": strconv.Itoa(o.Proj % 10)},
 	}}
 }
 
-func toObj(o kemtypes.ObjectAndFilterResult) Obj {
-	r := Obj{-1, -1, -1}
+func toView(o kemtypes.ObjectAndFilterResult) View {
+	r := View{-1, -1, -1, -1}
+	// identity from the resource id: namespace/kind/name
+	if parts := strings.Split(o.Metadata.ResourceId, "/"); len(parts) == 3 {
+		r.Ns, _ = strconv.Atoi(strings.TrimPrefix(parts[0], "ns"))
+		r.Name, _ = strconv.Atoi(strings.TrimPrefix(parts[2], "n"))
+	}
 	if o.Object != nil {
-		r.Ns, _ = strconv.Atoi(strings.TrimPrefix(o.Object.GetNamespace(), "ns"))
-		r.Name, _ = strconv.Atoi(strings.TrimPrefix(o.Object.GetName(), "n"))
+		v, rest := -1, -1
 		if d, ok := o.Object.Object["data"].(map[string]interface{}); ok {
 			if s, ok := d["v"].(string); ok {
-				r.Proj, _ = strconv.Atoi(s)
+				v, _ = strconv.Atoi(s)
+			}
+		}
+		if s, ok := o.Object.GetLabels()["r"]; ok {
+			rest, _ = strconv.Atoi(s)
+		}
+		if v >= 0 && rest >= 0 {
+			r.Full = rest*10 + v
+		} else {
+			r.Full = 9998
+		}
+		if o.Object.GetNamespace() != nsName(r.Ns) || o.Object.GetName() != objName(r.Name) {
+			r.Full = 9997
+		}
+	}
+	if o.FilterResult != nil {
+		r.Fr = 9998
+		if m, ok := o.FilterResult.(map[string]interface{}); ok {
+			if s, ok := m["v"].(string); ok && len(m) == 1 {
+				r.Fr, _ = strconv.Atoi(s)
 			}
 		}
 	}
@@ -121,7 +156,10 @@ func toObj(o kemtypes.ObjectAndFilterResult) Obj {
 }
 
 func monitorConfig(in SnapIn) *kubeeventsmanager.MonitorConfig {
-	mc := &kubeeventsmanager.MonitorConfig{Kind: "ConfigMap", ApiVersion: "v1", KeepFullObjectsInMemory: true}
+	mc := &kubeeventsmanager.MonitorConfig{Kind: "ConfigMap", ApiVersion: "v1", KeepFullObjectsInMemory: !in.DropFull}
+	if in.Filter {
+		mc.JqFilter = ".data"
+	}
 	mc.Metadata.MonitorId = "m"
 	mc.Metadata.DebugName = "c02"
 	mc.Metadata.LogLabels = map[string]string{}
@@ -145,11 +183,11 @@ func monitorConfig(in SnapIn) *kubeeventsmanager.MonitorConfig {
 	return mc
 }
 
-func stableSnapshot(vm *kubeeventsmanager.VerifC01Monitor) []Obj {
-	read := func() []Obj {
-		var r []Obj
+func stableSnapshot(vm *kubeeventsmanager.VerifC01Monitor) []View {
+	read := func() []View {
+		var r []View
 		for _, o := range vm.M.Snapshot() {
-			r = append(r, toObj(o))
+			r = append(r, toView(o))
 		}
 		return r
 	}
@@ -421,6 +459,21 @@ func coqObj(o Obj) string {
 	}
 	return fmt.Sprintf("(%d,%d,%d)", f(o.Ns), f(o.Name), f(o.Proj))
 }
+func coqView(v View) string {
+	opt := func(n int) string {
+		if n < 0 {
+			return "None"
+		}
+		return fmt.Sprintf("(Some %d)", n)
+	}
+	f := func(n int) int {
+		if n < 0 {
+			return 9999
+		}
+		return n
+	}
+	return fmt.Sprintf("(%d,%d,%s,%s)", f(v.Ns), f(v.Name), opt(v.Fr), opt(v.Full))
+}
 func coqOp(o ObjOp) string {
 	k := map[string]string{"create": "OCreate", "modify": "OModify", "delete": "ODelete"}[o.Kind]
 	return fmt.Sprintf("(%s, %s)", k, coqObj(o.Obj))
@@ -440,12 +493,24 @@ func Render(in Input, obs *Obs, crash string) core.Case {
 		if s.Ghost != nil {
 			ghost = "(Some " + coqObj(*s.Ghost) + ")"
 		}
-		c.Coq = fmt.Sprintf("CSnap (mkSnapIn %s %s %s %s %s %s) %s %s %s",
+		c.Coq = fmt.Sprintf("CSnap (mkSnapIn %s %s %s %s %s %s %s %s) %s %s %s",
 			core.CoqList(s.Namespaces, core.CoqN), core.CoqList(s.Names, core.CoqN), core.CoqList(s.Initial, coqObj),
-			core.CoqList(s.Ops, coqOp), ghost, core.CoqBool(s.Restart),
-			core.CoqList(o.Snap, coqObj), core.CoqList(o.Restart, coqObj), bad)
-		c.Key = c.Coq[:strings.Index(c.Coq, ")")+1] + fmt.Sprint(s.Ops, s.Initial, s.Ghost, s.Restart)
-		c.Tags = []string{"snap", fmt.Sprintf("ops:%02d", len(s.Ops)/4*4), fmt.Sprintf("restart:%v", s.Restart), fmt.Sprintf("namesel:%v", len(s.Names) > 0), fmt.Sprintf("nssel:%v", len(s.Namespaces) > 0)}
+			core.CoqList(s.Ops, coqOp), ghost, core.CoqBool(s.Restart), core.CoqBool(s.Filter), core.CoqBool(!s.DropFull),
+			core.CoqList(o.Snap, coqView), core.CoqList(o.Restart, coqView), bad)
+		c.Key = c.Coq[:strings.Index(c.Coq, ")")+1] + fmt.Sprint(s.Ops, s.Initial, s.Ghost, s.Restart, s.Filter, s.DropFull)
+		outside := 0 // modifications that change nothing the filter selects
+		cur := map[[2]int]int{}
+		for _, ob := range s.Initial {
+			cur[[2]int{ob.Ns, ob.Name}] = ob.Proj
+		}
+		for _, op := range s.Ops {
+			k := [2]int{op.Ns, op.Name}
+			if op.Kind == "modify" && cur[k]%10 == op.Proj%10 && cur[k] != op.Proj {
+				outside++
+			}
+			cur[k] = op.Proj
+		}
+		c.Tags = []string{"snap", fmt.Sprintf("filter:%v", s.Filter), fmt.Sprintf("keepfull:%v", !s.DropFull), fmt.Sprintf("outside-filter-modify:%v", outside > 0), fmt.Sprintf("ops:%02d", len(s.Ops)/4*4), fmt.Sprintf("restart:%v", s.Restart), fmt.Sprintf("namesel:%v", len(s.Names) > 0), fmt.Sprintf("nssel:%v", len(s.Namespaces) > 0)}
 		c.Nontrivial = len(s.Ops) >= 3
 	case in.Upd != nil:
 		u := in.Upd
@@ -506,7 +571,7 @@ func genSnap(r *core.Rng, nOps int) SnapIn {
 	for i := 0; i < r.Intn(4); i++ {
 		ns, n := pick()
 		if _, ok := state[[2]int{ns, n}]; !ok {
-			p := 1 + r.Intn(5)
+			p := r.Intn(40)
 			state[[2]int{ns, n}] = p
 			in.Initial = append(in.Initial, Obj{ns, n, p})
 		}
@@ -516,19 +581,27 @@ func genSnap(r *core.Rng, nOps int) SnapIn {
 		cur, ok := state[[2]int{ns, n}]
 		switch {
 		case !ok:
-			p := 1 + r.Intn(5)
+			p := r.Intn(40)
 			state[[2]int{ns, n}] = p
 			in.Ops = append(in.Ops, ObjOp{"create", Obj{ns, n, p}})
 		case r.Chance(35):
 			delete(state, [2]int{ns, n})
 			in.Ops = append(in.Ops, ObjOp{"delete", Obj{ns, n, cur}})
 		default:
-			p := 1 + r.Intn(5)
+			p := r.Intn(40)
+			switch {
+			case r.Chance(35): // only what the filter does not select changes
+				p = cur%10 + 10*((cur/10+1+r.Intn(3))%4)
+			case r.Chance(10): // nothing changes
+				p = cur
+			}
 			state[[2]int{ns, n}] = p
 			in.Ops = append(in.Ops, ObjOp{"modify", Obj{ns, n, p}})
 		}
 	}
 	in.Restart = r.Chance(30)
+	in.Filter = r.Chance(55)
+	in.DropFull = r.Chance(25)
 	return in
 }
 
@@ -575,11 +648,14 @@ func Gen(r *core.Rng, tier string) ([]core.In[Input], bool) {
 	add(Input{Snap: &SnapIn{Names: []int{1, 1}, Initial: []Obj{{1, 1, 1}}, Ops: []ObjOp{{"modify", Obj{1, 1, 2}}}}}, "corpus")                    // F13 (fixed): matchNames ["n1","n1"]
 	add(Input{Snap: &SnapIn{Namespaces: []int{1, 2, 1}, Initial: []Obj{{1, 1, 1}, {2, 1, 1}}, Ops: []ObjOp{{"create", Obj{3, 1, 1}}}}}, "corpus") // repeated namespace
 	add(Input{Snap: &SnapIn{Initial: []Obj{{1, 1, 1}}, Ghost: &Obj{2, 2, 7}, Ops: []ObjOp{{"create", Obj{1, 2, 1}}}}}, "trigger-F26")
+	add(Input{Snap: &SnapIn{Filter: true, Initial: []Obj{{1, 1, 13}}, Ops: []ObjOp{{"modify", Obj{1, 1, 23}}}}}, "corpus")                 // change outside the jqFilter: the kept object follows
+	add(Input{Snap: &SnapIn{Filter: true, DropFull: true, Initial: []Obj{{1, 1, 13}}, Ops: []ObjOp{{"modify", Obj{1, 1, 24}}}}}, "corpus") // filter result only
+	add(Input{Snap: &SnapIn{DropFull: true, Initial: []Obj{{1, 1, 13}, {2, 1, 5}}, Ops: []ObjOp{{"delete", Obj{2, 1, 5}}}}}, "corpus")     // neither filter nor object: identity only
 	add(Input{Grp: &GrpIn{Named: true}}, "corpus")
 	add(Input{Grp: &GrpIn{Named: false}}, "trigger-F25")
 	add(Input{Upd: &UpdIn{Bindings: []UpdBinding{{1, []int{1, 2}, false}, {2, nil, false}, {3, []int{1, 2}, true}},
 		Ctxs: []UpdCtx{{1, true}, {2, true}, {1, false}, {3, false}}}}, "corpus")
-	nSnap, nUpd := 40, 300
+	nSnap, nUpd := 120, 300
 	switch tier {
 	case "thorough":
 		nSnap, nUpd = 2000, 20000
@@ -599,6 +675,6 @@ func Gen(r *core.Rng, tier string) ([]core.In[Input], bool) {
 
 var Driver = core.Driver[Input, Obs]{
 	Spec: core.Spec{Property: "C02", Imports: []string{"C02_Model", "C02_Spec", "C02_Corr"}, Corr: "C02_Corr", Triggers: []string{"F25", "F26"},
-		Rule: "snap: a real monitor on a fake cluster (static namespaces / all namespaces, nameSelector with repeated entries, initial objects) follows generated create/modify/delete histories over 3 namespaces x 3 names, Snapshot() at quiescence and after a restart compared with the matching objects of the cluster; upd: the real HookController.UpdateSnapshots over a reader that answers differently on every call, random include topologies and context arrays; grp: a real hook config with two kubernetes bindings sharing a group, named and unnamed (trigger F25); one ghost scenario (trigger F26); non-trivial = >=3 cluster operations or >=2 contexts; distinct by input"},
+		Rule: "snap: a real monitor on a fake cluster (static namespaces / all namespaces, nameSelector with repeated entries, initial objects, with and without jqFilter .data, keepFullObjectsInMemory true/false; object content = a part the filter selects + a label outside it, 35% of modifications touch only the latter) follows generated create/modify/delete histories over 3 namespaces x 3 names, Snapshot() at quiescence and after a restart compared entry by entry (identity, filterResult, object) with the matching objects of the cluster; upd: the real HookController.UpdateSnapshots over a reader that answers differently on every call, random include topologies and context arrays; grp: a real hook config with two kubernetes bindings sharing a group, named and unnamed (trigger F25); one ghost scenario (trigger F26); non-trivial = >=3 cluster operations or >=2 contexts; distinct by input"},
 	Gen: Gen, Run: Run, Render: Render, PerShard: 400, Workers: 8, CaseTimout: 40 * time.Second,
 }
